@@ -1,9 +1,43 @@
 // ===== prelude/topo.rs — petgraph::visit::Topo, ASSUMED contract =====
 /// a topological order of the structure (petgraph `Topo`): every node exactly once, sources before targets
+pub open spec fn is_topo_order_of(n: int, es: Seq<EdgeV>, order: Seq<int>) -> bool {
+    &&& is_perm(order, n)
+    &&& forall|e: int, i: int, j: int| #![trigger es[e], order[i], order[j]]
+            0 <= e < es.len() && 0 <= i < order.len() && 0 <= j < order.len() && order[i] == es[e].src && order[j] == es[e].dst ==> i < j
+}
+
 pub open spec fn is_topo_order<N>(g: &Dag<N, Edge, FnIdInner>, order: Seq<int>) -> bool {
-    &&& is_perm(order, g.n() as int)
-    &&& forall|e: int, i: int, j: int| #![trigger g.edges()[e], order[i], order[j]]
-            0 <= e < g.edges().len() && 0 <= i < order.len() && 0 <= j < order.len() && order[i] == g.edges()[e].src && order[j] == g.edges()[e].dst ==> i < j
+    is_topo_order_of(g.n() as int, g.edges(), order)
+}
+
+/// what petgraph's Topo can walk: a Dag by reference, or `Reversed(&dag)` (every edge seen from target to source)
+pub trait VxWalkable {
+    spec fn vx_n(&self) -> int;
+    spec fn vx_edges(&self) -> Seq<EdgeV>;
+    spec fn vx_wf(&self) -> bool;
+    spec fn vx_is_topo(&self, order: Seq<int>) -> bool;
+}
+
+impl<'a, N> VxWalkable for &'a Dag<N, Edge, FnIdInner> {
+    open spec fn vx_n(&self) -> int { self.n() as int }
+    open spec fn vx_edges(&self) -> Seq<EdgeV> { self.edges() }
+    open spec fn vx_wf(&self) -> bool { self.wf() }
+    open spec fn vx_is_topo(&self, order: Seq<int>) -> bool { is_topo_order(*self, order) }
+}
+
+/// petgraph::visit::Reversed
+#[derive(Clone, Copy)]
+pub struct Reversed<G>(pub G);
+
+pub open spec fn swap_edges(es: Seq<EdgeV>) -> Seq<EdgeV> {
+    Seq::new(es.len(), |e: int| EdgeV { src: es[e].dst, dst: es[e].src, kind: es[e].kind })
+}
+
+impl<'a, N> VxWalkable for Reversed<&'a Dag<N, Edge, FnIdInner>> {
+    open spec fn vx_n(&self) -> int { self.0.n() as int }
+    open spec fn vx_edges(&self) -> Seq<EdgeV> { swap_edges(self.0.edges()) }
+    open spec fn vx_wf(&self) -> bool { self.0.wf() }
+    open spec fn vx_is_topo(&self, order: Seq<int>) -> bool { is_topo_order_of(self.0.n() as int, swap_edges(self.0.edges()), order) }
 }
 
 #[verifier::external_body]
@@ -25,14 +59,14 @@ impl Topo {
 
     /// petgraph::visit::Topo::new(g)
     #[verifier::external_body]
-    pub fn new<N>(g: &Dag<N, Edge, FnIdInner>) -> (r: Topo)
-        requires g.wf(),
-        ensures is_topo_order(g, r.order()), r.pos() == 0,
+    pub fn new<G: VxWalkable>(g: G) -> (r: Topo)
+        requires g.vx_wf(),
+        ensures g.vx_is_topo(r.order()), r.pos() == 0,
     { unimplemented!() }
 
     /// `Walker::iter(self, g)`: yields the nodes in this topological order
     #[verifier::external_body]
-    pub fn iter<N>(self, g: &Dag<N, Edge, FnIdInner>) -> (r: VxIter<NodeIndex<FnIdInner>>)
+    pub fn iter<G: VxWalkable>(self, g: G) -> (r: VxIter<NodeIndex<FnIdInner>>)
         requires self.pos() == 0,
         ensures r.rest().len() == self.order().len(), forall|i: int| 0 <= i < self.order().len() ==> (#[trigger] r.rest()[i]).0.0 == self.order()[i],
     { unimplemented!() }
